@@ -61,7 +61,7 @@ class Engine(ExprEval, NumpyModel, NumpyFuncs):
         self.spec_consts = dict(spec_consts or {})
         self.spec_funcs = dict(spec_funcs or {})
         self.spec_names = set(self.spec_funcs) | {"forall", "exists", "implies", "iff", "ite", "old", "shape", "rowsum",
-                                                  "is_none", "typeis", "lam", "isnan_", "fresh", "using", "gather_pos", "gather_src", "sort_inv", "sort_perm"}
+                                                  "is_none", "typeis", "lam", "isnan_", "fresh", "using", "optval", "gather_pos", "gather_src", "sort_inv", "sort_perm"}
         self.externals = dict(externals or {})
         self.obligations: list[Obligation] = []
         self.assumptions: set[str] = set()
@@ -584,6 +584,9 @@ class Engine(ExprEval, NumpyModel, NumpyFuncs):
             if isinstance(v, OptV):
                 return v.is_none
             return v is NONE
+        if name == "optval":
+            v = args[0]
+            return v.value if isinstance(v, OptV) else (0 if v is NONE else v)
         if name == "isnan_":
             v = args[0]
             return v.is_none if isinstance(v, OptV) else False
@@ -1065,9 +1068,27 @@ class Engine(ExprEval, NumpyModel, NumpyFuncs):
             s1.assume(c)
             s2.assume(mk_not(c))
             s1.tmp, s2.tmp = {}, {}
+            self.refine_optionals(s1, stmt.test, True)
+            self.refine_optionals(s2, stmt.test, False)
             return self.exec_block(s1, stmt.body) + self.exec_block(s2, stmt.orelse)
 
         return self._with_hoist(st, [stmt.test], cont)
+
+    def refine_optionals(self, st, test, truth):
+        """After branching on `x is None` / `x is not None` (possibly inside an and-chain) narrow the optional variable x."""
+        if isinstance(test, ast.BoolOp) and isinstance(test.op, ast.And) and truth:
+            for v in test.values:
+                self.refine_optionals(st, v, True)
+            return
+        if isinstance(test, ast.UnaryOp) and isinstance(test.op, ast.Not):
+            self.refine_optionals(st, test.operand, not truth)
+            return
+        if isinstance(test, ast.Compare) and len(test.ops) == 1 and isinstance(test.left, ast.Name) \
+                and isinstance(test.comparators[0], ast.Constant) and test.comparators[0].value is None:
+            v = st.env.get(test.left.id)
+            if isinstance(v, OptV):
+                is_none = isinstance(test.ops[0], ast.Is) == truth
+                st.env[test.left.id] = NONE if is_none else v.value
 
     def s_Import(self, st, stmt):
         for a in stmt.names:
@@ -1375,6 +1396,8 @@ class Engine(ExprEval, NumpyModel, NumpyFuncs):
             return z3.Const(name, {"int": z3.IntSort(), "real": z3.RealSort(), "bool": z3.BoolSort()}[b])
         if b == "none":
             return NONE
+        if b == "opt":
+            return OptV(z3.Bool(fresh_name(name + "_isnone")), self.make_value(st, ts.elem, name, scope))
         if b == "str":
             return ts.const if ts.const is not None else Opaque("str", name)
         if b == "fn":
